@@ -47,7 +47,7 @@ for n in list(range(0, 21)) + list(range(21, 29)):
 # ---------------------------------------------------------------- c. version_edit.c
 # The rb-tree behind edit->deleted_files is modelled in the harness (array set);
 # vector.c / buffer.c / dbformat.c are the real ones.
-EDIT_REAL = ["version_edit.c", "dbformat.c", "util/slice.c", "util/buffer.c", "util/vector.c"]
+EDIT_REAL = ["version_edit.c", "dbformat.c", "util/slice.c", "util/buffer.c"]
 EDIT_FUNCS = ["ldb_edit_import", "ldb_level_slurp", "ldb_edit_reset", "ldb_edit_clear", "ldb_edit_set_compact_pointer",
               "ldb_edit_remove_file", "ldb_edit_add_file", "ldb_buffer_slurp", "ldb_slice_slurp", "ldb_varint64_read",
               "ldb_vector_push", "ldb_buffer_set"]
@@ -60,8 +60,8 @@ def edit_unwindset(n, r):
     d = {"ldb_edit_import.0": r + 1, "harness.1": r + 2, "harness.0": r + 1, "harness.2": r + 1, "harness.3": r + 1,
          "harness.4": r + 1, "ldb_edit_clear.0": r + 1, "ldb_edit_clear.1": r + 1, "ldb_rb_set_put.0": r + 1,
          "ldb_rb_tree_clear.0": r + 1,
-         # vp_alloc.c: slot search over <= 3 + 2r realloc'd buffers; copy of <= max(N, 8r) old bytes
-         "ldb_realloc.0": 3 + 2 * r + 1, "ldb_realloc.1": max(n, 8 * r) + 1,
+         # vp_alloc_slab.c: copy of <= VP_SLAB old bytes; typed vectors of VP_VEC_CAP slots
+         "ldb_realloc.0": max(4, n) + 1, "vp_realloc_ptrs.0": 9,
          "memcpy.0": n + 1, "vp_bytes_eq.0": n + 1, "vp_fill.0": n + 1, "vp_ref_varint.0": min(10, n) + 1}
     for sfx in LINKS:
         d["ldb_varint32_read%s.0" % sfx] = min(5, n) + 1
@@ -73,7 +73,8 @@ EDIT_DESC = ("edit_import: safe, terminates, accepts iff the reference VersionEd
              "field/compact pointer/deleted file/new file == reference, edit clearable afterwards")
 # fully arbitrary bytes (every complete record is >= 2 bytes: at most ceil(N/2) loop iterations)
 for n in range(0, 7):
-    add("c.edit-import-N%d" % n, "C18/edit.c", real=EDIT_REAL, defs={"VP_N": n}, unwind=n + 2,
+    add("c.edit-import-N%d" % n, "C18/edit.c", real=EDIT_REAL, include_real=["util/vector.c"], kit=SLAB_KIT,
+        defs={"VP_N": n, "VP_SLAB": max(4, n), "VP_VEC_CAP": 8}, unwind=n + 2,
         unwindset=edit_unwindset(n, (n + 1) // 2),
         tier="quick" if n <= 3 else "thorough", timeout=300 if n <= 3 else 1800, functions=EDIT_FUNCS,
         desc=EDIT_DESC + " -- all inputs", bounds="record = N=%d arbitrary bytes" % n)
@@ -84,7 +85,8 @@ EDIT_QUICK_1REC = (4, 8, 11, 12, 16, 22, 24)
 for k, ns in ((1, range(2, 33)), (2, range(4, 13))):
     for n in ns:
         quick = (k == 1 and n in EDIT_QUICK_1REC)
-        add("c.edit-%drec-N%d" % (k, n), "C18/edit.c", real=EDIT_REAL, defs={"VP_N": n, "VP_MAXREC": k}, unwind=n + 2,
+        add("c.edit-%drec-N%d" % (k, n), "C18/edit.c", real=EDIT_REAL, include_real=["util/vector.c"], kit=SLAB_KIT,
+            defs={"VP_N": n, "VP_MAXREC": k, "VP_SLAB": max(4, n), "VP_VEC_CAP": 8}, unwind=n + 2,
             unwindset=edit_unwindset(n, k), tier="quick" if quick else "thorough", timeout=300 if quick else 1800,
             functions=EDIT_FUNCS,
             desc=EDIT_DESC + " -- inputs with <= %d complete record(s), the last ending the input, or a malformed record" % k,
